@@ -962,6 +962,8 @@ type baseRec struct {
 	Sql    string `json:"sql"`    // hex
 	Mode   string `json:"mode"`
 	Tq     *tqReq `json:"tq,omitempty"`
+	Logql  string `json:"logql,omitempty"` // hex: the LogQL request text of the baseline (LogQL sites)
+	Clu    bool   `json:"cluster,omitempty"`
 }
 type caseRec struct {
 	Kind  string `json:"kind"`
@@ -994,10 +996,15 @@ func (rn *runner) baseFor(st site, mk, mklit string, stmt int, nstmts int) int {
 	}
 	var r res
 	lastTq = nil
+	lastLogql.q = ""
 	if p := hx.Catch(func() { r = st.run(mk) }); p != "" {
 		r.rej = "panic: " + p
 	}
 	btq := lastTq
+	blq, bclu := "", false
+	if lastLogql.q != "" {
+		blq, bclu = hx.Hex(lastLogql.q), lastLogql.cluster
+	}
 	if r.rej != "" || len(r.sqls) != nstmts {
 		rn.bases[key] = -1
 		return -1
@@ -1005,7 +1012,7 @@ func (rn *runner) baseFor(st site, mk, mklit string, stmt int, nstmts int) int {
 	for i, q := range r.sqls {
 		k := fmt.Sprintf("%s|%s|%d", st.name, mk, i)
 		rn.bases[k] = rn.nbase
-		rn.out.Put(baseRec{Kind: "base", Bid: rn.nbase, Site: st.name, Marker: hx.Hex(mklit), Sql: hx.Hex(q), Mode: r.mode, Tq: btq})
+		rn.out.Put(baseRec{Kind: "base", Bid: rn.nbase, Site: st.name, Marker: hx.Hex(mklit), Sql: hx.Hex(q), Mode: r.mode, Tq: btq, Logql: blq, Clu: bclu})
 		rn.nbase++
 	}
 	return rn.bases[key]
